@@ -222,15 +222,48 @@ func checkRequestTable(p *Prog, r *Report) {
 		return isK && k == 0o170000 && fld == modeF && isF(base)
 	}
 	typeNames := map[int64]string{0o040000: "DIR", 0o120000: "LNK", 0o020000: "CHR", 0o060000: "BLK", 0o140000: "SOCK", 0o010000: "FIFO", 0o100000: "REGMODE"}
+	// the Lstat of the destination entry: DestRoot.Lstat(f.Name) in recvGenerator, or in a
+	// helper recvGenerator calls with f.Name (the helper's parameter is the Lstat argument)
 	var lstat *ssa.Call
-	for _, u := range unit {
-		allCalls(u, func(c ssa.CallInstruction) {
-			if call, ok := c.(*ssa.Call); ok && calleeName(c) == "(*os.Root).Lstat" && lstat == nil {
-				if _, fld := loadedField(call.Common().Args[1]); fld == nameF {
-					lstat = call
+	allCalls(fn, func(c ssa.CallInstruction) {
+		call, ok := c.(*ssa.Call)
+		if !ok || lstat != nil {
+			return
+		}
+		if calleeName(c) == "(*os.Root).Lstat" {
+			if _, fld := loadedField(call.Common().Args[1]); fld == nameF {
+				lstat = call
+			}
+			return
+		}
+		h := c.Common().StaticCallee()
+		if h == nil || h.Blocks == nil || !inUnit(h) {
+			return
+		}
+		allCalls(h, func(hc ssa.CallInstruction) {
+			hcall, ok := hc.(*ssa.Call)
+			if !ok || lstat != nil || calleeName(hc) != "(*os.Root).Lstat" {
+				return
+			}
+			for k, pp := range h.Params {
+				if hcall.Common().Args[1] == ssa.Value(pp) && k < len(c.Common().Args) {
+					if _, fld := loadedField(c.Common().Args[k]); fld == nameF {
+						lstat = hcall
+					}
 				}
 			}
 		})
+	})
+	if lstat == nil {
+		for _, u := range unit {
+			allCalls(u, func(c ssa.CallInstruction) {
+				if call, ok := c.(*ssa.Call); ok && calleeName(c) == "(*os.Root).Lstat" && lstat == nil {
+					if _, fld := loadedField(call.Common().Args[1]); fld == nameF {
+						lstat = call
+					}
+				}
+			})
+		}
 	}
 	if lstat == nil {
 		r.Fatalf("%s: no DestRoot.Lstat(f.Name) in recvGenerator", rule)
